@@ -288,6 +288,14 @@ class Interp:
             if was_errvar:
                 st["errvar"] = var
             return
+        # y = [e for e in x if cond] with x the validator's error list: y is the (filtered) error list that decides from here on
+        if isinstance(v, (ast.ListComp,)) and len(v.generators) == 1 and isinstance(v.generators[0].iter, ast.Name) and st.get("errvar") == v.generators[0].iter.id and isinstance(v.elt, ast.Name) and isinstance(v.generators[0].target, ast.Name) and v.elt.id == v.generators[0].target.id and any("severity" in ast.unparse(i) and "!=" in ast.unparse(i) for i in v.generators[0].ifs):
+            src = v.generators[0].iter.id
+            st[f"nn:{var}"] = "NN"
+            if st.get(f"tr:{src}") == "F":
+                st[f"tr:{var}"] = "F"
+            st["errvar"] = var
+            return
         if isinstance(v, ast.Constant):
             if v.value is None:
                 st[f"nn:{var}"] = "N"
